@@ -9,6 +9,9 @@ Local Open Scope nat_scope.
 Definition q (a : Z) (b : positive) : Qc := Q2Qc (a # b).
 Definition Q0 : Qc := Q2Qc 0.
 Definition Q1 : Qc := Q2Qc 1.
+(* short literals for the case files *)
+Definition U : Qc := Q2Qc 1.
+Definition z (a : Z) : Qc := Q2Qc (a # 1).
 
 Notation qmat := (mat Qc).
 Notation qblk := (blk Qc).
